@@ -43,6 +43,35 @@ CHECKS.update({
    text="real Graph codec on a symbolic id / adjacency (paths = ids), local complementation on a fully symbolic adjacency (all graphs at once) incl. an explicit-layer LC-class identity; class-id and grouping codecs on their complete finite domains",
    note="trusts z3 and the NumPy proxy; codec part is solver-driven enumeration", tech="symbolic execution of repo source + SMT identity over 15 adjacency bits"),
 })
+CHECKS.update({
+ "C08": dict(engine="symrun+ztab", cat="model_checking",
+   text="Stabilizer.validate() executed on unconstrained symbolic matrices with symbolic signs (result <=> independent validity spec, z3), prep/readout executed end to end on unconstrained tableaux (every outcome is an exception or a circuit that z3 proves right for the given operators), plus the finite entry-point x (n, name) gate table",
+   note="trusts z3, ztab, the NumPy proxy; n>=4 unconstrained end-to-end inputs outside; the gate table is a finite concrete check", tech=PIPE_TECH),
+ "C09": dict(engine="ztab", cat="model_checking",
+   text="per configuration one z3 query over a symbolic Pauli (all 4^n-1 operators lie in exactly one basis group) and per basis one query over a symbolic coefficient vector (circuit i diagonalises the whole group i); header numbers and readout-cost comparison recomputed; caller-side mutation history step",
+   note="trusts z3, ztab (validated vs qiskit), the independent string parser", tech="SMT (z3) over symbolic Paulis / coefficient vectors against the real getters' output"),
+ "C10": dict(engine="symrun+ztab", cat="model_checking",
+   text="the state is symbolic (all 4^n Pauli coefficients free reals); exact outcome distributions are rational linear forms derived from the returned circuits with ztab; the REAL fitter code runs on them and z3 proves (LRA validity) that every reported expectation value and density-matrix entry equals the expected form",
+   note="floating point abstracted to exact rationals; trusts z3, ztab, qiskit's Pauli.evolve on concrete arguments", tech="symbolic execution of the fitters on exact linear forms + z3 linear-real-arithmetic validity"),
+ "C11": dict(engine="symrun+ztab", cat="model_checking",
+   text="as C10 with an N-qubit symbolic state and the measured list a symbolic ordered m-subset (realised): both fitters, both modes, both call orders on one fitter object",
+   note="N<=5; floating point abstracted; trusts z3, ztab", tech="symbolic execution of the fitters on exact linear forms + z3 LRA validity; solver-realised qubit lists"),
+ "C12": dict(engine="symrun+ztab", cat="model_checking",
+   text="as C10 for stabilizer_measurement_circuit + StabilizerMeasurementFitter: symbolic state, stabilizers from the F3/Fc families; exactly the 2^n unsigned group elements as keys, each value == r_P (LRA validity)",
+   note="floating point abstracted; trusts z3, ztab", tech="symbolic execution of the fitter on exact linear forms + z3 LRA validity"),
+ "C13": dict(engine="symrun+ztab", cat="other",
+   text="havoc-based inductive step on the instrumented library: op1, caller-side mutation of everything reachable (argument arrays overwritten with fresh symbolic bits), op2 with a fresh or the SAME argument object; z3 proves for all inputs of each symbolic family that op2 meets its specification, equals the result of a freshly reset library, and that arguments are unmodified. The aliasing part is structural, the solver quantifies over inputs; cross-process equality is a concrete side condition",
+   note="assumes the library's cross-call state lives in module-level containers or in objects handed to the caller; induction over history length is pen-and-paper", tech="symbolic execution of call sequences with havoc; z3 obligations per path"),
+ "C14": dict(engine="symrun+ztab", cat="model_checking",
+   text="every constructor branch on symbolic input: strings (characters realised by the solver), matrices and graphs with all entries symbolic, circuit branch via a slicing lemma over an arbitrary symbolic tableau plus all short gate programs / all table circuits through the real constructor; to_list on symbolic tableaux incl. both call orders",
+   note="strings are solver-driven enumeration; qiskit's tableau trusted up to the bounded validation", tech="symbolic execution of repo source; z3 obligations; environment stub for qiskit's tableau"),
+ "C15": dict(engine="symrun", cat="model_checking",
+   text="is_equivalent_mod_phase / expand / is_qubit_entangled executed on symbolic valid tableaux; z3 proves agreement with definitions expanded over all coefficient vectors (n<=3 complete for equivalence, partitions of n=4; expand n<=6; entanglement n<=4/5)",
+   note="GF(2) dimension arguments at n>=4 need partitioning (stated); trusts z3, NumPy proxy", tech="symbolic execution + SMT with partitioned queries"),
+ "C16": dict(engine="symrun+lcq", cat="model_checking",
+   text="real find_local_clifford_layer on unconstrained symbolic operator sets (n<=3) and class-graph / perturbed-random families (n=4..6): per 'layer' path z3 proves the defining equation and block validity, per 'None' path an exists-layer query over all 6^n layers is unsat; gate emission on a symbolic 2x2 block",
+   note="trusts z3, NumPy proxy (hybrid native/object matmul), ztab", tech="symbolic execution + exists-layer SMT queries per path"),
+})
 NA_REASON = {}
 
 def main():
